@@ -208,6 +208,7 @@ func c15Run(c *Ctx) {
 		Lines(Print("[1, [2, [3, [4]]], {k: [5, {j: 6}]}]"), Print("{a: {b: {c: [1, 2, 3]}}, z: []}"), Print("[[], [[]], {}, [{}]]")),
 		Lines(Fun("f", "", ""), Print("f"), Print("[f]"), Print(B["len"]), Print("{k: f}")),
 		Lines(Print("[0.5, -0, 1000000, 0.0000001, 123456]"), Print("{big: 9007199254740993, small: 0.000001}")),
+		Lines(Print(`"" + 1 + 2`), Print(`"" + 1000000 + 1`), Var("acc", `""`), For(Var("i", "1"), "i < 4", "i = i + 1", "{ acc = acc + i; }"), Print("acc"), Print(`("" + 5) == 5`), Print(`("" + 5) == "5"`), Print(`!("" + 0)`), Print(`"" + 0.5 + 0.5`), Print(`"" + (0 - 0) + 1`)),
 		Lines(Print(`100 + "%"`), Print(`"%" + 100`), Print(`2.5 + "%%"`), Print(`1 + "%d"`), Print(`"%v" + 1 + "%s"`), Print(`1000000 + "%"`), Print(`0.5 + "% off"`)),
 		Lines(Var("o", "{x: 1, y: \"hi\"}"), Var("a", "[o, o, 0]"), "a[2] = a;", Print("a"), Var("leaf", "{p: 1}"), Var("root", "{p: leaf, q: leaf}"), "root.self = root;", Print("root"), Var("sh", "[7, 8]"), Var("c", "[sh, [sh, sh], 0]"), "c[2] = c;", Print("c"), Print("[c, o]")),
 		Lines(Print(`"a" + 1`), Print(`1 + "a"`), Print(`"x" + 0.5 + "y" + 1000000 + "z"`), Print(`"" + (1/3)`), Print(`(2 ** 70) + ""`)),
